@@ -41,6 +41,9 @@ func (e SEvent) String() string {
 
 var lockMethods = map[string]bool{"Lock": true, "Unlock": true, "RLock": true, "RUnlock": true}
 
+// conditional acquisitions and the acquisition a granted one is (the hook reports a granted try under that name)
+var tryLockMethods = map[string]string{"TryLock": "Lock", "TryRLock": "RLock"}
+
 // ---------------------------------------------------------------------------------
 // dynamic part: lock-event traces recorded through the verif hook
 
